@@ -76,7 +76,7 @@ let dump (c : cfg) (s : state) : string =
        | None -> Buffer.add_string b "DANGLING"
        | Some None -> Buffer.add_char b '-'
        | Some (Some n) -> Buffer.add_string b (sn n));
-      Buffer.add_string b (Printf.sprintf "/%d/%s" (int_of_n (s.s_pprio p)) (if s.s_pinh p then "i" else "s"))
+      if int_of_n (s.s_pprio p) > int_of_n sOURCE_PRIORITY_MAX then Buffer.add_string b "!prio>max"
     end
   done;
   Buffer.add_string b "~U:";
@@ -91,6 +91,10 @@ let dump (c : cfg) (s : state) : string =
       Buffer.add_string b (Printf.sprintf "[%s|%s|%s|%s]%s" (joini (sorted u.u_in)) (joini (sorted u.u_out))
         (joini (sorted u.u_src)) (joini (sorted u.u_sink)) (if u_active u then "a" else "n"))) st;
   Buffer.contents b
+
+let prio_s (c : cfg) (s : state) : string =
+  String.concat "," (List.init (List.length c.c_ports) (fun i -> let p = n_of_int i in
+    if s.s_pdead p then "X" else Printf.sprintf "%d/%s" (int_of_n (s.s_pprio p)) (if s.s_pinh p then "i" else "s")))
 
 let cands (s : state) : string =
   joini (List.sort compare (List.map (fun o -> match deref s o with Some u -> int_of_n u.u_num | None -> -1) s.s_cand))
@@ -124,7 +128,7 @@ let handle (payload : string) : string =
     let x = ref (xinit xc) in
     let tags = Hashtbl.create 8 in
     let tag t = Hashtbl.replace tags t () in
-    Buffer.add_string b ("d=" ^ dump c !x.x_s);
+    Buffer.add_string b ("d=" ^ dump c !x.x_s ^ ";p=" ^ prio_s c !x.x_s);
     let dead = ref false in
     List.iteri (fun k o ->
       if not !dead then begin
@@ -162,8 +166,8 @@ let handle (payload : string) : string =
           (match r with RSaved (_ :: _) -> tag "gc" | _ -> ());
           let r = match o with XSvcRegister _ | XSvcUnregister _ -> RUnit | _ -> r in
           x := x';
-          Buffer.add_string b (Printf.sprintf ";r%d=%s;d%d=%s;c%d=%s;b%d=%s;f%d=%s" k (res_s r) k (dump c x'.x_s)
-                                 k (cands x'.x_s) k (broker_s c x') k (prefs_s c x'))
+          Buffer.add_string b (Printf.sprintf ";r%d=%s;d%d=%s;c%d=%s;b%d=%s;f%d=%s;p%d=%s" k (res_s r) k (dump c x'.x_s)
+                                 k (cands x'.x_s) k (broker_s c x') k (prefs_s c x') k (prio_s c x'.x_s))
       end) ops;
     let order = ["vetounpatch"; "vetostate"; "vetorepatch"; "vetofresh"; "register"; "unregister"; "svcunreg-missing";
                  "loop"; "multi"; "gc"; "stop"; "repatch"; "nullport"] in
